@@ -118,6 +118,8 @@ func cacheExec(c *Ctx, op string) {
 		sanitizeForRoundtrip(fsx, "tar")
 		// every ware carries a setuid file (for reject filters) owned by a foreign uid (so uid filters alter it)
 		fsx = append(fsx, Entry{Name: fmt.Sprintf("suid%d", i), Kind: 'f', Perms: 04755, Uid: 4000 + uint32(i), Gid: 4000, Sec: 1e9, Content: []byte{byte(i)}})
+		// … and one with the setgid bit alone (a chown clears it on a non-directory: it has to be set again afterwards)
+		fsx = append(fsx, Entry{Name: fmt.Sprintf("sgid%d", i), Kind: 'f', Perms: 02755, Uid: 4000 + uint32(i), Gid: 4000, Sec: 1e9, Content: []byte{byte(i), 1}})
 		src := filepath.Join(base, fmt.Sprintf("src%d", i))
 		if err := Materialize(fsx, src, nil); err != nil {
 			c.EmitR(op, "skip", "skip")
